@@ -528,6 +528,12 @@ End Valid.
 Lemma kwd_attrs_mangled_true : kwd_attrs_mangled = true.
 Proof. reflexivity. Qed.
 
+(* compile_cases treats every guard a clause has as a guard ([hc_guard = Some g]); that is what
+   compile_match_expression does iff it tests `guard is not None` rather than the truth value of the
+   guard's model (fb0bfe7: `:if 0`, `:if ""`, `:if []` used to be dropped) *)
+Lemma guard_kept_when_falsy_true : guard_kept_when_falsy = true.
+Proof. reflexivity. Qed.
+
 Lemma supported_all mangle : forall h, supported mangle h = true.
 Proof.
   assert (K : forall kws, forallb (kwd_ok mangle) kws = true).
